@@ -9,8 +9,9 @@
 (*   sigs : the SigData list (identity that signed this message, 0 = a      *)
 (*          signature valid under no key)                                   *)
 (* Row (neo/neo3) [chain, fam, n, m, script, sigs]                           *)
-(*   m      : threshold of the tracked multi-signature script (neo: any     *)
-(*            1..n; neo3: n - (n-1) div 3 of the state validators)          *)
+(*   m      : threshold of the tracked multi-signature script (neo: 1, n -  *)
+(*            (n-1) div 3 and n; neo3: n - (n-1) div 3 of the state         *)
+(*            validators)                                                   *)
 (*   script : "tracked" or a different script offered by the sender         *)
 (*            ("lowm": same keys, threshold m-1; "subset": one key dropped; *)
 (*             "foreign": one key replaced by the sender's own)             *)
@@ -74,7 +75,7 @@ OntExhaustive ==
 NeoRow(chain, fam, n, m, script, sigs) == [chain |-> chain, fam |-> fam, n |-> n, m |-> m, script |-> script, bks |-> <<>>, sigs |-> sigs]
 Scripts == {"tracked", "lowm", "subset", "foreign"}
 ScriptsFor(n, m) == {sc \in Scripts : (sc = "lowm" => m >= 2) /\ (sc = "subset" => n >= 2)}
-Ms(chain, n) == IF chain = "neo3" THEN {Neo3Need(n)} ELSE 1..n
+Ms(chain, n) == IF chain = "neo3" THEN {Neo3Need(n)} ELSE {1, Neo3Need(n), n}     \* neo: thresholds 1, the usual BFT one, n
 
 WithAdjacentDup(S, d) == LET k == Cardinality({x \in S : x <= d})
                          IN SubSeq(SetToSeq(S), 1, k) \o <<d>> \o SubSeq(SetToSeq(S), k + 1, Cardinality(S))
